@@ -169,6 +169,28 @@ func Validate(d Doc, wantVersion string, cfg map[string]any) []Finding {
 					add("security-schemes-as-configured", "#/components/securitySchemes/"+n+"/"+dk, "%s is %q, configuration says %q", dk, Str(gs[dk]), cv)
 				}
 			}
+			// OAuth2 flows: exactly the configured flow kinds, each with the configured URLs and scopes
+			wf, gf := M(ws["flows"]), M(gs["flows"])
+			for _, fk := range []string{"implicit", "password", "clientCredentials", "authorizationCode"} {
+				w, g := M(wf[fk]), M(gf[fk])
+				where := "#/components/securitySchemes/" + n + "/flows/" + fk
+				switch {
+				case w == nil && g == nil:
+				case w == nil:
+					add("security-schemes-as-configured", where, "the document has a %s flow %s, the configuration has none for this scheme", fk, Canon(gf[fk]))
+				case g == nil:
+					add("security-schemes-as-configured", where, "the configured %s flow is missing", fk)
+				default:
+					for _, uk := range []string{"authorizationUrl", "tokenUrl", "refreshUrl"} {
+						if Str(w[uk]) != Str(g[uk]) {
+							add("security-schemes-as-configured", where+"/"+uk, "%s is %q, configuration says %q", uk, Str(g[uk]), Str(w[uk]))
+						}
+					}
+					if Canon(orEmptyMap(w["scopes"])) != Canon(orEmptyMap(g["scopes"])) {
+						add("security-schemes-as-configured", where+"/scopes", "scopes are %s, configuration says %s", Canon(g["scopes"]), Canon(w["scopes"]))
+					}
+				}
+			}
 		}
 		for n := range got {
 			if want[n] == nil {
@@ -177,6 +199,13 @@ func Validate(d Doc, wantVersion string, cfg map[string]any) []Finding {
 		}
 	}
 	return out
+}
+
+func orEmptyMap(v any) any {
+	if m := M(v); m != nil {
+		return m
+	}
+	return map[string]any{}
 }
 
 func isSchemaPosition(where string) bool {
